@@ -176,8 +176,8 @@ Definition cmp_apply (op : cmpop) (l r : value) : outcome :=
   | CmpOther _ => ExprErr
   end.
 
-(* the date coercion of TransactionEvaluator._eval_Compare: returns the (left, right) actually compared;
-   the coerced right is what the chain carries on *)
+(* the date coercion of TransactionEvaluator._eval_Compare: returns the (left, right) actually compared in
+   this link; the next link of a chain starts from the right operand as written *)
 Definition iso_outcome (s : string) : outcome :=
   match parse_iso s with IsoOk n => Val (VDate n) | IsoBad => ExprErr | IsoUnmodelled => Unmodelled "iso-week-date" end.
 Definition coerce_dates (l r : value) : outcome * outcome :=
@@ -599,9 +599,9 @@ Section Fns.
 
   Definition strip_prefix_str (t p : string) : string :=
     if is_prefix (upper p) (upper t) then sconcat (skipn (cp_len p) (cps t)) else t.
-  (* text[:-len(suffix)]: for an empty suffix this is text[:0] *)
+  (* text[:len(text) - len(suffix)] *)
   Definition strip_suffix_str (t s : string) : string :=
-    if is_suffix (upper s) (upper t) then slice_str t 0 (- Z.of_nat (cp_len s)) else t.
+    if is_suffix (upper s) (upper t) then slice_str t 0 (Z.of_nat (cp_len t) - Z.of_nat (cp_len s)) else t.
   Definition fn_strip_prefix (args : list value) : outcome :=
     match args with
     | [t; p] => with_str t (fun ts => with_str p (fun ps => Val (VStr (strip_prefix_str ts ps))))
